@@ -564,11 +564,13 @@ namespace hgraph::ts_data_plan_factory_detail
                 {
                     removed_.reset(result.slot);
                     value_published_.set(result.slot);
+                    restore_child_modified(result.slot, modified_time);
                 }
                 else if (child_valid(result.slot))
                 {
                     value_published_.set(result.slot);
                     added_.set(result.slot);
+                    restore_child_modified(result.slot, modified_time);
                 }
                 (void)key_set_tracking_.record_modified(modified_time);
                 return mutation_result(result.slot, result.constructed);
@@ -591,11 +593,13 @@ namespace hgraph::ts_data_plan_factory_detail
                 {
                     removed_.reset(result.slot);
                     value_published_.set(result.slot);
+                    restore_child_modified(result.slot, modified_time);
                 }
                 else if (child_valid(result.slot))
                 {
                     value_published_.set(result.slot);
                     added_.set(result.slot);
+                    restore_child_modified(result.slot, modified_time);
                 }
                 (void)key_set_tracking_.record_modified(modified_time);
                 return mutation_result(result.slot, result.constructed);
@@ -645,6 +649,19 @@ namespace hgraph::ts_data_plan_factory_detail
                 modified_.reset(slot);
                 (void)key_set_tracking_.record_modified(modified_time);
                 return mutation_result(slot);
+            }
+
+            // A key removed and re-inserted within one cycle resurrects its element in
+            // place. remove_key cleared the slot's modified mark, and a later write to
+            // the element is coalesced by its own tracking (already modified at this
+            // time), so the mark has to be restored here or the tick's delta loses the key.
+            void restore_child_modified(std::size_t slot, DateTime modified_time)
+            {
+                const auto &ops = element_type_.ops_ref();
+                if (ops.tracking_impl(ops.context, values_.value_memory(slot))->last_modified_time == modified_time)
+                {
+                    modified_.set(slot);
+                }
             }
 
             void record_child_modified(std::size_t slot, DateTime modified_time)
